@@ -19,7 +19,8 @@ def _ec(i):
 def gen_call(rng, tok, cid='a', kinds=None, invalid_p=0.1, version=None):
     """One call descriptor (a JSON-able dict)."""
     kinds = kinds or ['parse_message', 'parse_message', 'parse_message', 'parse_segment', 'parse_segment',
-                      'parse_field', 'factory', 'build', 'build', 'parse_component']
+                      'parse_field', 'factory', 'build', 'build', 'parse_component', 'field_override', 'field_dt',
+                      'segment_build', 'component_switch']
     kind = rng.choice(kinds)
     version = version or rng.choice(T.VERSIONS)
     level = rng.choice([STRICT, TOLERANT, TOLERANT])
@@ -72,6 +73,29 @@ def gen_call(rng, tok, cid='a', kinds=None, invalid_p=0.1, version=None):
             steps.append([f[0] if rng.random() < 0.7 else (f[1][3] or f[0]), v])
         return {'kind': kind, 'name': name, 'version': version, 'level': level, 'ec': eci, 'steps': steps,
                 'then': ['er7', 'names']}
+    if kind == 'component_switch':
+        # a named component of a complex datatype switched to another complex datatype after construction
+        cands = sorted(n for n, r in T.lib(version).DATATYPES.items() if r is not None and r[0] == 'sequence')
+        dts = [d for d in ('CX', 'XPN', 'CE', 'HD', 'EI', 'CWE', 'FN', 'TS', 'DR') if T.datatype_struct(version, d)]
+        if not cands or not dts:
+            return gen_call(rng, tok, cid, ['factory'], invalid_p)
+        return {'kind': kind, 'name': rng.choice(cands), 'version': version, 'level': TOLERANT, 'd2': rng.choice(dts)}
+
+    if kind == 'field_override':
+        # a field built with another complex datatype than the tables give it (TOLERANT only), then a
+        # second value after switching the datatype once more
+        name = gen.pick_segment(rng, version)
+        flds = [c for c in T.seg_fields(version, name) if c[1] is not None and c[2][1] != 0 and c[1][0] == 'sequence']
+        dts = [d for d in ('CX', 'XPN', 'CE', 'HD', 'XAD', 'EI', 'PL', 'CWE', 'XCN', 'XTN') if T.datatype_struct(version, d)]
+        if not flds or not dts:
+            return gen_call(rng, tok, cid, ['factory'], invalid_p)
+        f = rng.choice(flds)
+        d1, d2 = rng.choice(dts), rng.choice(dts)
+
+        def txt(dt):
+            return gen.field_text(rng, version, ('sequence', T.datatype_struct(version, dt), dt, None, None, -1), ECS[0], tok, 0.5)
+        return {'kind': kind, 'name': f[0], 'version': version, 'level': TOLERANT, 'ec': 0, 'd1': d1, 'v1': txt(d1),
+                'd2': d2, 'via_ctor': rng.random() < 0.5}
     if kind == 'field_dt':
         # a field of a base datatype, valued, then given another base datatype, then valued again
         name = gen.pick_segment(rng, version)
@@ -222,6 +246,43 @@ def run_call(c, hook=None):
             if hook:
                 hook('alive', sg)
             return {'ok': True, 'steps': log, 'obs': _observe(sg, c['then'], ec)}
+        if kind == 'component_switch':
+            from hl7apy.core import Component
+            comp = Component(c['name'], version=c['version'], validation_level=c['level'])
+            before = [comp.datatype, sorted(comp.structure_by_name or ())[:4]]
+            try:
+                comp.datatype = c['d2']
+                step = 'ok'
+            except Exception as ex:      # noqa
+                step = 'EXC ' + canon_exc(ex)
+            fresh = Component(c['name'], version=c['version'], validation_level=c['level'])
+            return {'ok': True, 'step': step, 'before': before, 'after': [comp.datatype, sorted(comp.structure_by_name or ())[:4]],
+                    'fresh': [fresh.datatype, sorted(fresh.structure_by_name or ())[:4]]}
+        if kind == 'field_override':
+            from hl7apy.core import Field
+            log = []
+            try:
+                if c['via_ctor']:
+                    fld = Field(c['name'], datatype=c['d1'], version=c['version'], validation_level=c['level'])
+                else:
+                    fld = Field(c['name'], version=c['version'], validation_level=c['level'])
+                    fld.datatype = c['d1']
+                log.append('ok')
+            except Exception as ex:      # noqa
+                return {'ok': False, 'exc': canon_exc(ex)}
+            for stage in ('v1', 'd2'):
+                try:
+                    if stage == 'v1':
+                        fld.value = c['v1']
+                    else:
+                        fld.datatype = c['d2']
+                    log.append('ok')
+                except Exception as ex:      # noqa
+                    log.append('EXC ' + canon_exc(ex))
+            # a fresh, untouched field of the same name must still have the structure of the tables
+            ref = Field(c['name'], version=c['version'], validation_level=c['level'])
+            return {'ok': True, 'steps': log, 'dt': fld.datatype, 'kids': [ch.name for ch in fld.children],
+                    'fresh': [ref.datatype, sorted(ref.structure_by_name or ())[:6]], 'obs': _observe(fld, ['er7'], _ec(0))}
         if kind == 'field_dt':
             from hl7apy.core import Field
             fld = Field(c['name'], version=c['version'], validation_level=c['level'])
